@@ -15,15 +15,68 @@ from scales.constants import SinkProperties
 Idle = HeapBalancerSink.Idle
 
 
+def removed_jobs(tier):
+  return [dict(name='removed-member-%s' % k, op='scenario', sc='removed', stack=k, cost=2000, shards=16, shard_depth=5) for k in ('T', 'M')]
+
+
+def removed_member(job):
+  """real Thrift / ThriftMux stacks over the fake TCP layer: a member with a call outstanding leaves the server set; the call
+  then completes by a reply, by the connection failing, or by its time-out (solver's choice of instants). Afterwards the
+  departed member is closed for good: every connection to it is closed and no connection to it is attempted again."""
+  from . import stacks
+  from .c01 import peer_cls
+  from symex import net as netm
+  k = job['stack']
+  def body():
+    e = stacks.setup()
+    T = fresh_real('T', 0, 10, lo_strict=True)
+    d = fresh_real('server_delay', 0, 15)
+    how = choose('completion', 2)       # 0: the server replies after d; 1: the server drops the connection after d
+    script = netm.Script(plan=lambda i, p: ('reply', d) if how == 0 else ('close', d))
+    eps = {}
+    for h, p_ in (('h1', 9001), ('h2', 9002)):
+      eps[h] = e.net.endpoint(h, p_, peer=lambda s_: peer_cls(k)(s_, script), connect_delay=0.1)
+    ss = fakes.FakeServerSet(2)
+    from scales.thrift import Thrift
+    from scales.thriftmux import ThriftMux
+    c = (ThriftMux if k == 'M' else Thrift).NewBuilder(stacks.Hello.Iface).SetUri('tcp://h1:9001').SetServerSetProvider(ss).SetTimeout(T).Build()
+    ar = c.hi_async('x')
+    gevent.sleep(0.5)
+    served = [p.sock.endpoint.addr[0] for (tt, p, m_, a, tg) in script.requests]
+    check('removed.call-dispatched', len(served) == 1)
+    if len(served) != 1: return
+    host = served[0]
+    la = fresh_real('leave_at', 0, 12)
+    hdecide(la < d); hdecide(la < T)
+    gevent.sleep(la)
+    outstanding = len(stacks.events(ar)) == 0
+    member = [m for m in ss.members if m.service_endpoint.host == host][0]
+    gevent.spawn(ss.on_leave, member)
+    t_leave = vtime.now()
+    if outstanding: cover(k + ':member-leaves-with-call-outstanding')
+    gevent.sleep(150)
+    check('removed.call-completed-once', len(stacks.events(ar)) == 1)
+    ep = eps[host]
+    if outstanding and how == 1 and bool(d < T): cover(k + ':last-call-of-removed-member-fails-with-its-connection')
+    check('removed.connections-closed', all(s_.closed or s_.peer_closed for s_ in ep.conns))
+    check('removed.all-client-side-closed', all(s_.closed for s_ in ep.conns))
+    late = [t for t in ep.attempts if bool(t > t_leave + 20)]
+    check('removed.no-reconnect-to-departed-member', not late)
+    check('no-greenlet-error', not vtime.ERRORS)
+    c.DispatcherClose()
+  return body
+
+
 def jobs(tier):
   if tier == 'quick':
     return [dict(name='scenario-m2-c1-dup', op='scenario', members=2, calls=1, dup=True, cost=500, shards=4, shard_depth=3),
-            dict(name='scenario-m2-c2', op='scenario', members=2, calls=2, dup=False, cost=5000, shards=32, shard_depth=6)]
+            dict(name='scenario-m2-c2', op='scenario', members=2, calls=2, dup=False, cost=5000, shards=32, shard_depth=6)] + removed_jobs(tier)
   return [dict(name='scenario-m2-c1-dup', op='scenario', members=2, calls=1, dup=True, cost=500, shards=4, shard_depth=3),
-          dict(name='scenario-m2-c2-dup', op='scenario', members=2, calls=2, dup=True, cost=50000, shards=128, shard_depth=8)]
+          dict(name='scenario-m2-c2-dup', op='scenario', members=2, calls=2, dup=True, cost=50000, shards=128, shard_depth=8)] + removed_jobs(tier)
 
 
 def make_body(job):
+  if job.get('sc') == 'removed': return removed_member(job)
   M = job['members']; NC = job['calls']
   def body():
     vtime.setup()
